@@ -181,6 +181,18 @@ CLAIMED['C13'] = dict(
     note='Oracle: the regex parser of the interpreter running the check.',
     ref='DESIGN.md section 3, C13')
 
+CLAIMED['C14'] = dict(
+    technique='table extraction checked against inspect.signature of a sample function + provenance fix-point on def-use chains',
+    text='Static, narrow: each ast.arguments field is added with the Parameter kind the language gives it (oracle: inspect.signature of a '
+         'sample function compiled by the checker), in the language order, */** without default, keyword-only zipped with kw_defaults, and '
+         'the annotation collector covers the same five lists (R14.1); every value stored in Attribute.annotation / Function.annotations '
+         'is None or went through unstring_annotation / infer_type on every def-use path (R14.2); `-> None` is omitted (R14.3); the '
+         'signature built from a node goes to the overload XOR the function and each overload is rendered with its own object (R14.4); '
+         'the default-offset formula aligns defaults to the end of the positional parameters (R14.5). Does not decide the text '
+         'Signature.__str__ produces nor arbitrary layouts at run time.',
+    note='Lowest-priority claim; R14.5 checks the shape of the offset expressions, not their evaluation.',
+    ref='DESIGN.md section 3, C14')
+
 NOT_APPLICABLE = {
     'C04': 'relation between expandName results and the interpreter import system over all projects: value computations, no clause visible in the shape of the code (DESIGN.md section 5)',
     'C06': 'quantifies over processing schedules; name resolution during the AST walk is order sensitive by design, no structural bound (DESIGN.md section 5); the one structural fact (post-processing after the drain loop) is checked under C05',
